@@ -265,7 +265,7 @@ package parsley
 //@ func (rc ResultCache) Get(idx int, pos Pos, lrc data.IntMap) (r *Result, found bool)
 //@   requires WfCacheShape(rc)
 //@   let st = rc[idx][pos]
-//@   ensures  [reuse;C01,C03] found == (st != nil && forall k int :: dom(data.MapOf(st.LeftRecCtx), k) ==> data.MapOf(st.LeftRecCtx)[k] <= data.MapOf(lrc)[k])
+//@   ensures  [reuse;C01,C03,C07] found == (st != nil && forall k int :: dom(data.MapOf(st.LeftRecCtx), k) ==> data.MapOf(st.LeftRecCtx)[k] <= data.MapOf(lrc)[k])
 //@   ensures  [value;C03] (found ==> r == st) && (!found ==> r == nil)
 //@   assigns  nothing
 //@ loop 1 (n rangeindex, keys []int)
